@@ -3,3 +3,4 @@ import CpSpec.Wire
 import CpSpec.Mpint
 import CpSpec.Tls
 import CpSpec.Ja3
+import CpSpec.Opp
